@@ -29,3 +29,4 @@ func verifImplies(a, b bool) bool
 func verifParam(name string) int
 func verifPreemptBound(n int)
 func verifDeepEqual(a, b interface{}) bool
+func verifFreeze(root interface{})
